@@ -337,7 +337,7 @@ pub fn run(tier: Tier) -> i32 {
     let s = ctx.shards("bcd-digits", 16, |i, seed, st| {
         // all-nines / boundary strings, every length, with and without F filler
         if i == 0 {
-            for len in 0..=11usize {
+            for len in 0..=24usize {
                 for fill in [0x99u8, 0x00, 0x12, 0x25] {
                     for last_f in [false, true] {
                         let mut b = vec![fill; len];
@@ -375,7 +375,7 @@ pub fn run(tier: Tier) -> i32 {
             st.class_n("bcd-digits:exhaustive<=2bytes", 5 * (256 + 65536));
         }
         let digit = prop_oneof![8 => 0u8..10, 1 => Just(9u8)];
-        let strat = (0usize..=11).prop_flat_map(move |n| (proptest::collection::vec((digit.clone(), digit.clone()), n), any::<bool>(), 0u8..12));
+        let strat = prop_oneof![4 => 0usize..=11, 1 => 12usize..=24].prop_flat_map(move |n| (proptest::collection::vec((digit.clone(), digit.clone()), n), any::<bool>(), 0u8..12));
         ctx.proptest(seed, nrand / 8, &strat, st, |(ds, lastf, lead_zero), st| {
             let mut b: Vec<u8> = ds.iter().map(|(h, l)| h << 4 | l).collect();
             // leading zero bytes keep the value small while the string is long
@@ -475,7 +475,7 @@ pub fn run(tier: Tier) -> i32 {
     ];
     ctx.finish(
         stats,
-        "enumeration (u8/u16, tags, short BCD/CP437 strings, receipt numbers) + proptest (wider integers at digit/bit boundaries and uniform, BCD digit strings of length 0..=11 bytes, hex <= 64 bytes, CP437 <= 300 bytes). non-trivial = value >= 10 / non-empty string; distinct by (encoding, type, input)",
+        "enumeration (u8/u16, tags, short BCD/CP437 strings, receipt numbers) + proptest (wider integers at digit/bit boundaries and uniform, BCD digit strings of length 0..=24 bytes (beyond u128), hex <= 64 bytes, CP437 <= 300 bytes). non-trivial = value >= 10 / non-empty string; distinct by (encoding, type, input)",
         &[
             "reference encoders (own BCD, own CP437 table from the Unicode mapping, own tag rules) are written independently of zvt_builder",
             "BCD strings with non-decimal nibbles or an F filler that is not the final low nibble are only required not to panic",
